@@ -18,7 +18,20 @@ import (
 
 type Rng struct{ s uint64 }
 
-func NewRng(seed uint64) *Rng { return &Rng{s: seed*0x9E3779B97F4A7C15 + 0x1234567} }
+// NewRng: seed 1 keeps its historical start state (all recorded replays and
+// most of the validation were made with it). Every other seed is scrambled
+// first: with the plain `seed*gamma + c` start state, seed s+1 produced seed s's
+// stream shifted by one draw, so "three seeds" were nearly one.
+func NewRng(seed uint64) *Rng {
+	s := seed*0x9E3779B97F4A7C15 + 0x1234567
+	if seed != 1 {
+		z := s
+		z = (z ^ (z >> 33)) * 0xFF51AFD7ED558CCD
+		z = (z ^ (z >> 33)) * 0xC4CEB9FE1A85EC53
+		s = z ^ (z >> 33) ^ (seed << 17)
+	}
+	return &Rng{s: s}
+}
 func (r *Rng) U64() uint64 {
 	r.s += 0x9E3779B97F4A7C15
 	z := r.s
